@@ -134,14 +134,26 @@ def _pick(rx, variant):
 
 
 # ---- universe ------------------------------------------------------------------------------------------------------
-def alt_value(row: str):
-    """same head, another value: the last word replaced"""
+def valued(row: str, neg_word: str):
+    """words of a row that carries a value: at least two words after an optional negation word, else None"""
     ws = row.split()
-    if len(ws) < 2:
+    body = ws[1:] if ws and ws[0] == neg_word else ws
+    return ws if len(body) >= 2 else None
+
+
+def alt_value(row: str, neg_word: str):
+    """same head, another value: the last word replaced (rows without a value - 'no shutdown' - have none)"""
+    ws = valued(row, neg_word)
+    if ws is None:
         return None
     last = ws[-1]
-    ws[-1] = str(int(last) + 1) if last.isdigit() else ("rstp" if last == "mstp" else last + "2")
-    return " ".join(ws)
+    return " ".join(ws[:-1] + [str(int(last) + 1) if last.isdigit() else ("rstp" if last == "mstp" else last + "2")])
+
+
+def same_head(row: str, default: str, neg_word: str) -> bool:
+    """row differs from the (valued) default in the last word only"""
+    a, b = row.split(), valued(default, neg_word)
+    return b is not None and len(a) == len(b) and a[:-1] == b[:-1] and a[-1] != b[-1]
 
 
 def negation(row: str, word: str):
@@ -163,7 +175,8 @@ def rules_by_level(rules, level=1, out=None):
 
 
 def universe(rules, neg_word):
-    """{level: [(row, kind)]}: kind D default row, P row matching a '!' pattern, H same head/other value (one per level),
+    """{level: [(row, kind)]}: kind D default row, P row matching a '!' pattern, H same head/other value (one per level,
+    from the first default of the level that carries a value),
     X default row with one more word (one per level: matches the default's pattern without being the default),
     N negated default (one per level), F foreign row (every level, also one level below the deepest rule)."""
     by = rules_by_level(rules)
@@ -183,9 +196,9 @@ def universe(rules, neg_word):
             if r.ignore:
                 add(row_for_pattern(r.row), "P")
         defaults = [r.row for r in lv if not r.ignore]
-        multi = [d for d in defaults if len(d.split()) > 1]
+        multi = [d for d in defaults if valued(d, neg_word)]
         if multi:
-            add(alt_value(multi[0]), "H")
+            add(alt_value(multi[0], neg_word), "H")
         if defaults:
             add(defaults[0] + " x", "X")
             add(negation(defaults[0], neg_word), "N")
